@@ -41,7 +41,11 @@ Dirs == {"/", "/mnt/a b", "/mnt/tab"}
 FsTypes == {"ext4", "tmpfs", "zfs", "proc"}
 NoDev == {"tmpfs", "zfs", "proc"}                 \* flagged nodev in /proc/filesystems
 DiskBacked == (FsTypes \ NoDev) \cup {"zfs"}      \* nodev is ignored except for zfs
-MountEnts == [dev : Devs, dir : Dirs, type : FsTypes]
+\* mount options: the usual few, or an overlay-style list of 2800 bytes (a mount line
+\* may be as long as the kernel cares to print it)
+OptKinds == {"short", "long"}
+OptLen(o) == IF o = "long" THEN 2800 ELSE 11
+MountEnts == [dev : Devs, dir : Dirs, type : FsTypes, opts : OptKinds]
 MountInputs == [fam : {"mounts"}, ents : {<<e>> : e \in MountEnts}
                                        \cup {<<e, f>> : e \in {x \in MountEnts : x.dev = "none"}, f \in {x \in MountEnts : x.type = "zfs"}},
                 all : BOOLEAN]
@@ -49,7 +53,7 @@ DevOut(d) == IF d = "none" THEN "" ELSE d
 Keep(i, e) == i.all \/ (DevOut(e.dev) # "" /\ e.type \in DiskBacked)
 MountOut(i) == [rows |-> [k \in {j \in 1..Len(i.ents) : Keep(i, i.ents[j])} |->
                             [device |-> DevOut(i.ents[k].dev), mountpoint |-> i.ents[k].dir,
-                             fstype |-> i.ents[k].type]]]
+                             fstype |-> i.ents[k].type, optslen |-> OptLen(i.ents[k].opts)]]]
 
 (* ---------------- argument classes --------------------------------------- *)
 PidFns == {"proc_ioprio_get", "proc_cpu_affinity_get", "getpriority", "check_pid_range"}
